@@ -796,6 +796,12 @@ func TestCheck(t *testing.T) {
 		r.Finish()
 		return
 	}
+	// request path spelling family: request paths derived from the configured route paths, every spelling of
+	// dot-segments / empty segments / percent-encoded dots at every position (paths_test.go)
+	if !runPathFamily(r, deadline) {
+		r.Finish()
+		return
+	}
 	// host pattern family: request hosts derived from the configured patterns (hosts_test.go)
 	if !runHostFamily(r, deadline) {
 		r.Finish()
@@ -973,6 +979,12 @@ func TestCheck(t *testing.T) {
 		"(thorough 1..3) distinct patterns in every order x route forms {only route, restricted route in front of an open one, method-restricted route (404 vs 405)}; request Hosts derived from EVERY "+
 		"pattern domain: the domain, 1- and 2-level sub-domains, parent, sibling, glued names without a dot boundary (evil+d, not-a-+d, x_+d, xn--+d, UTF-8 byte+d), d as prefix / glued prefix / infix, "+
 		"punycode and UTF-8 sub-domain labels, each spelled plain / upper case / trailing dot / :port / upper+port / dot+port, plus no Host and an IPv6 literal; label-wise reference. "+
+		"request path spelling family: ordered lists of 1..2 (thorough 1..3) routes over {/, /hooks, /hooks/github, /hooks/github/push, /health, /hooks/.well-known} x kinds {open, method GET, outbound, internal}; "+
+		"request paths derived from EVERY route path of the configuration (the path, its parent, a child, a sibling, / and a path below no route): one token inserted at every position "+
+		"(//, runs of 3/10/65 slashes, ., .., ../.., ../../../.. above the root, x/.., x/y/../.., ../n for every segment name n, %2e%2e, %2E%2E, .%2E, %2e, x/%2e%2e, %2f, x%2f.., twice-encoded %252e%252e and x%252f.., "+
+		"the look-alike segments ..; ... ..%20 ..\\.., x) or one segment re-spelled (first byte percent-encoded, upper case, n., n.., .n, ..n, n;x, n%2f), each followed by nothing / . / .. (thorough: 4 more) and 0..1 trailing slashes, "+
+		"POST and GET, origin-form, absolute-form (also with an empty path) and with a query containing dot-segments; thorough: two inserted tokens at every pair of positions; raw request targets through http.ReadRequest "+
+		"(not normalised); reference: segment stack over the harness's own element list (push / nothing / pop), then the first inbound route whose segments are a prefix; percent-encodings calibrated once mid-path. "+
 		"method list family: /api with the first K=0..7 of 7 methods (inline, named matcher, split), /api/orders (4 method variants), /api/orders/x, /api/users (3 variants, optional host) in 3 orders "+
 		"(quick: 2 variants per child); on one boot a walk through the request alphabet path(6) x method(6..7) x host(1..2) in which every ordered pair of requests occurs as consecutive requests; "+
 		"every response compared with the stateless reference; then every ordered pair (A, B) once more with B served completely inside A's first Header / WriteHeader / Write call on its ResponseWriter "+
@@ -980,7 +992,7 @@ func TestCheck(t *testing.T) {
 		"served by 8 overlapping goroutines in phases 405-only / 404-only / 202-only / mixed; only the race detector judges. "+
 		"distinct_nontrivial counts (match shape, observed request value, reference verdict) classes, (route path, request path, verdict) classes and "+
 		"(channel tuple, winner position, status) classes reached by the reference")
-	r.Assume("encoded slashes (%2F) and other percent-encoded path bytes are not in the alphabet (documentation does not define them)")
+	r.Assume("main family: encoded slashes (%2F) and other percent-encoded path bytes are not in its alphabet; the request path spelling family sends them under a measured reading (see there)")
 	r.Assume("request methods are upper case; route auth, rate limits and adaptive backpressure are off (C08/C12 cover them), so a resolved request always ends in 202")
 	r.Assume("a pull route stores target \"pull\" (DESIGN.md Admin API example), a deliver route stores its deliver URL")
 	r.Assume("overlapping requests: a second request is interleaved deterministically only at the first request's ResponseWriter calls (method list family, all ordered pairs); an overlap between two " +
@@ -1169,7 +1181,7 @@ func replay(r *runner.Run, path string, m *memo) {
 		r.Infra("replay: %v", err)
 		return
 	}
-	if replayCompose(r, b) || replayHosts(r, b) || replayOverlap(r, b, m.ip) || replayMethods(r, b, m.ip) {
+	if replayCompose(r, b) || replayPaths(r, b) || replayHosts(r, b) || replayOverlap(r, b, m.ip) || replayMethods(r, b, m.ip) {
 		return
 	}
 	var doc struct {
